@@ -698,9 +698,12 @@ Print Assumptions C02_static_from_metadata.
    iff the model's step is ODie, and a return iff ODone with the view of the NEW model state, the file written appended
    under <procdir>/thread.<tid>/stream.json, and the returned value related as stated per call (call_agrees).  path_ok: the
    path fits PATH_MAX.  Proved for: ovni_add_cpu, ovni_proc_set_rank, ovni_thread_require, ovni_attr_set_* (4),
-   ovni_attr_has, ovni_attr_get_* (4), ovni_attr_flush (with thread_metadata_store, get_thread_metadata).  NOT proved
-   equal to the model here: ovni_thread_free and thread_metadata_init / populate (generated and compiled; the model's
-   ThreadFree / ThreadInit cases remain tied by the tree comparison of the rtmeta family only). *)
+   ovni_attr_has, ovni_attr_get_* (4), ovni_attr_flush (with thread_metadata_store, get_thread_metadata), ovni_thread_free
+   (against free_tree: rank, loom_cpus, ovni.finished = 1, then the store, then finished / ready), and the metadata part of
+   ovni_thread_init (thread_metadata_init with thread_metadata_populate and the store, rthread.ready = 1, the implicit
+   require of "ovni") against the ThreadInit case.  Hand-written around the generated code: the head of ovni_thread_init
+   (guards, memset, tid: init_view) and the sequencing of its three generated pieces (src_thread_init_meta);
+   set_thread_cpus and the calls outside the metadata state are primitives of RtMetaPre.v. *)
 From OV Require Rt.RtMetaPre Gen.RtMeta_gen Proofs.RtMetaGenProofs.
 Module MetaSrc.
 Import RtMetaDefs RtMetaPre RtMeta_gen RtMetaGenProofs.
@@ -717,6 +720,23 @@ Theorem C02_metadata_runs_from_source : forall sx,
   (forall tid, path_ok sx tid = true) -> forall p s, run_agrees sx s p.
 Proof. exact metadata_runs_from_source. Qed.
 Print Assumptions C02_metadata_runs_from_source.
+
+(* ovni_thread_free as generated = the model's ThreadFree case (it is also a case of call_agrees above) *)
+Theorem C02_thread_free_from_source : forall sx s th node out,
+  path_ok sx (t_tid (tget (st_threads s) th)) = true ->
+  agrees sx th out (ovni_thread_free sx (rs_of s th node out)) (step src_cfg s th ThreadFree) no_val.
+Proof. exact thread_free_from_source. Qed.
+Print Assumptions C02_thread_free_from_source.
+
+(* the metadata part of ovni_thread_init as generated (from the view of rthread after the memset) = the model's ThreadInit
+   case, for a thread that passes the guards at the head of the C function: same tree stored first (without the require),
+   same tree kept (with "ovni.require.ovni"), die() iff the model dies *)
+Theorem C02_thread_init_metadata_from_source : forall sx s th tid node out,
+  path_ok sx tid = true -> in_dom (ThreadInit tid) = true ->
+  t_ready (tget (st_threads s) th) = false -> t_finished (tget (st_threads s) th) = false -> tid <> 0 -> proc_ready s = true ->
+  agrees sx th out (src_thread_init_meta sx (init_view s tid node out)) (step src_cfg s th (ThreadInit tid)) no_val.
+Proof. exact thread_init_step_from_source. Qed.
+Print Assumptions C02_thread_init_metadata_from_source.
 
 (* the model's constants are those of the source: the theorems above are instantiated at src_cfg, whose model version
    parses (hypothesis of C02_metadata_complete) *)
